@@ -743,6 +743,41 @@ func vfDeadlineTolerance(eflag uint16) int64 {
 	return 2
 }
 
+// replayOrderRefuses: second manifestation of the open finding "the loader re-admits the holds of the log one
+// by one through the normal admission rule": the records are in persistence order, not in grant order, and the
+// UNLOCK record of a holder that has left comes after the LOCK records of holders that joined while it was
+// there. When the LOCK record of this hold is replayed, do the records before it leave more holds on the key
+// than the hold's own Count admits?
+func (p *vfE4Phase) replayOrderRefuses(db uint8, key, lockId [16]byte) bool {
+	depth := map[[16]byte]int{}
+	for _, r := range p.logRecs {
+		if r.Db != db || r.Key != key {
+			continue
+		}
+		if r.Cmd == protocol.COMMAND_LOCK {
+			if r.LockId == lockId && depth[lockId] == 0 {
+				others := 0
+				for id, d := range depth {
+					if id != lockId {
+						others += d
+					}
+				}
+				if r.Count < 0xffff && others > int(r.Count) {
+					return true
+				}
+			}
+			depth[r.LockId]++
+		} else if r.Cmd == protocol.COMMAND_UNLOCK {
+			if r.Rcount == 0 || depth[r.LockId] <= 1 {
+				delete(depth, r.LockId)
+			} else {
+				depth[r.LockId]--
+			}
+		}
+	}
+	return false
+}
+
 // explicitlyReleased: the last thing the clients were told about this LockId on this key in the phase
 // is the SUCCED of an UNLOCK that left depth 0
 func (p *vfE4Phase) explicitlyReleased(db uint8, key int, lockId int) bool {
@@ -903,7 +938,7 @@ func vfCompareRestart(p *vfE4Phase, before *vfSnapshot, exps []*vfE4Expect, rest
 				}
 				if rs := relockSig(ex.Kid.Db, ex.KeyBytes); rs != "" {
 					sig = rs
-				} else if depth-1 > cmin {
+				} else if depth-1 > cmin || p.replayOrderRefuses(ex.Kid.Db, ex.KeyBytes, ex.LockId) {
 					// the key is held by more holders than the smallest Count among them
 					// admits (legitimate once an older holder with a larger Count has left):
 					// the loader re-admits the holds one by one through the normal rule
@@ -1166,6 +1201,8 @@ type vfLogRec struct {
 	LockId  [16]byte
 	AofFlag uint16
 	Flag    uint8
+	Count   uint16
+	Rcount  uint8
 	AofIndex, AofOffset uint32
 }
 
@@ -1188,7 +1225,7 @@ func vfReadLogRecords(dir string) []vfLogRec {
 			l := NewAofLock()
 			copy(l.buf, b[off:off+64])
 			_ = l.Decode()
-			out = append(out, vfLogRec{File: n, Cmd: l.CommandType, Db: l.DbId, Key: l.LockKey, LockId: l.LockId, AofFlag: l.AofFlag, Flag: l.Flag, AofIndex: l.AofIndex, AofOffset: l.AofOffset})
+			out = append(out, vfLogRec{File: n, Cmd: l.CommandType, Db: l.DbId, Key: l.LockKey, LockId: l.LockId, AofFlag: l.AofFlag, Flag: l.Flag, Count: l.Count, Rcount: l.Rcount, AofIndex: l.AofIndex, AofOffset: l.AofOffset})
 		}
 	}
 	return out
